@@ -54,7 +54,7 @@ impl Global {
             Res::UniformStruct => format!("{head}var<uniform> {n}: UStruct;"),
             Res::StorageRead => format!("{head}var<storage, read> {n}: array<f32>;"),
             Res::StorageRw => format!("{head}var<storage, read_write> {n}: array<f32>;"),
-            Res::StorageAtomic => format!("{head}var<storage, read_write> {n}: atomic<u32>;"),
+            Res::StorageAtomic => format!("{head}var<storage, read_write> {n}: array<atomic<u32>, 4>;"),
             Res::Texture2d => format!("{head}var {n}: texture_2d<f32>;"),
             Res::TextureDepth => format!("{head}var {n}: texture_depth_2d;"),
             Res::Sampler => format!("{head}var {n}: sampler;"),
@@ -97,10 +97,10 @@ pub fn touches(g: &Global, rng: &mut Rng) -> Touch {
             _ => Touch::Stmt(format!("{{ let p = &{n}[2]; *p = acc + 1.0; }}")),
         },
         Res::StorageAtomic => match k {
-            0 => Touch::Expr(format!("f32(atomicAdd(&{n}, 1u))")),
-            1 => Touch::Stmt(format!("atomicStore(&{n}, 2u);")),
-            2 => Touch::Expr(format!("f32(atomicLoad(&{n}))")),
-            _ => Touch::Stmt(format!("atomicMax(&{n}, 3u);")),
+            0 => Touch::Expr(format!("f32(atomicAdd(&{n}[0], 1u))")),
+            1 => Touch::Stmt(format!("atomicStore(&{n}[1], 2u);")),
+            2 => Touch::Expr(format!("f32(atomicLoad(&{n}[2]))")),
+            _ => Touch::Stmt(format!("atomicMax(&{n}[3], 3u);")),
         },
         Res::Texture2d => Touch::Expr(match k {
             0 | 1 => format!("textureLoad({n}, vec2<i32>(0, 0), 0).x"),
@@ -297,7 +297,7 @@ pub fn wrap(a: &Touch, w: usize) -> String {
     // `simple` = a form allowed as a for-loop update clause (assignment or call, no block / let)
     let simple: Option<String> = match a {
         Touch::Expr(e) => Some(format!("acc = acc + {e}")),
-        Touch::Stmt(s) if !s.contains('{') && !s.starts_with("let ") && s.matches(';').count() == 1 => Some(s.trim_end_matches(';').to_string()),
+        Touch::Stmt(s) if !s.contains('{') && !s.starts_with("let ") && !s.starts_with("_ =") && s.matches(';').count() == 1 => Some(s.trim_end_matches(';').to_string()),
         _ => None,
     };
     match (w % WRAPPERS, expr) {
@@ -400,14 +400,14 @@ pub fn program(spec: &ProgramSpec, rng: &mut Rng) -> Program {
         let mut actions: Vec<Action> = vec![];
         // calls
         let callees: Vec<usize> = match spec.shape {
-            Shape::Chain => (if hi > 0 { vec![hi - 1] } else { vec![] }),
+            Shape::Chain => if hi > 0 { vec![hi - 1] } else { vec![] },
             Shape::Diamond => match hi {
                 0 => vec![],
                 // h1, h2 -> h0 ; h3 -> h1, h2 ; then repeat upward
                 _ if hi % 3 == 0 => vec![hi - 1, hi - 2],
                 _ => vec![hi - (hi % 3)],
             },
-            Shape::Shared => (if hi >= 2 { vec![rng.below(2)] } else { vec![] }),
+            Shape::Shared => if hi >= 2 { vec![rng.below(2)] } else { vec![] },
             Shape::NoHelpers => vec![],
             Shape::Random => {
                 let mut v = vec![];
@@ -440,7 +440,8 @@ pub fn program(spec: &ProgramSpec, rng: &mut Rng) -> Program {
         }
         rng.shuffle(&mut actions);
         for a in &actions {
-            h.body.push(wrap_nested(&a.form, rng, rng.range(1, spec.wrap_depth.max(1))));
+            let d = rng.range(1, spec.wrap_depth.max(1));
+            h.body.push(wrap_nested(&a.form, rng, d));
             h.uses.extend(a.uses.iter().copied());
             h.calls.extend(a.calls.iter().copied());
         }
@@ -481,7 +482,8 @@ pub fn program(spec: &ProgramSpec, rng: &mut Rng) -> Program {
             }
             rng.shuffle(&mut actions);
             for a in &actions {
-                e.body.push(wrap_nested(&a.form, rng, rng.range(1, spec.wrap_depth.max(1))));
+                let d = rng.range(1, spec.wrap_depth.max(1));
+                e.body.push(wrap_nested(&a.form, rng, d));
                 e.uses.extend(a.uses.iter().copied());
                 e.calls.extend(a.calls.iter().copied());
             }
@@ -490,4 +492,81 @@ pub fn program(spec: &ProgramSpec, rng: &mut Rng) -> Program {
     }
     rng.shuffle(&mut p.entries);
     p
+}
+
+// ---------------------------------------------------------------------------------------------
+// plain binding lists (C04, C11-like layouts)
+// ---------------------------------------------------------------------------------------------
+/// WGSL declaration tails for a broad mix of resource kinds: `{}` is replaced by the variable name.
+pub const RESOURCE_DECLS: [&str; 22] = [
+    "var<uniform> {}: vec4<f32>;",
+    "var<uniform> {}: mat4x4<f32>;",
+    "var<uniform> {}: f32;",
+    "var<uniform> {}: array<vec4<f32>, 3>;",
+    "var<storage, read> {}: array<f32>;",
+    "var<storage> {}: array<vec2<u32>, 8>;",
+    "var<storage, read_write> {}: array<u32>;",
+    "var<storage, read_write> {}: array<atomic<i32>, 2>;",
+    "var {}: texture_2d<f32>;",
+    "var {}: texture_2d<i32>;",
+    "var {}: texture_2d_array<u32>;",
+    "var {}: texture_cube<f32>;",
+    "var {}: texture_3d<f32>;",
+    "var {}: texture_1d<f32>;",
+    "var {}: texture_depth_2d;",
+    "var {}: texture_depth_cube_array;",
+    "var {}: texture_multisampled_2d<u32>;",
+    "var {}: texture_storage_2d<rgba8unorm, write>;",
+    "var {}: texture_storage_3d<r32float, read_write>;",
+    "var {}: texture_storage_1d<rgba32uint, read>;",
+    "var {}: sampler;",
+    "var {}: sampler_comparison;",
+];
+
+#[derive(Clone, Debug)]
+pub struct Slot {
+    pub group: u32,
+    pub binding: u32,
+    pub name: String,
+    pub decl_tail: &'static str,
+}
+
+impl Slot {
+    pub fn decl(&self) -> String {
+        format!("@group({}) @binding({}u) {}", self.group, self.binding, self.decl_tail.replace("{}", &self.name))
+    }
+}
+
+/// `n_groups` dense groups, each with 1..=max_per_group bindings at sparse, unordered indices;
+/// the returned list is in (shuffled) declaration order.
+pub fn slots(n_groups: u32, max_per_group: usize, rng: &mut Rng) -> Vec<Slot> {
+    let mut v = vec![];
+    let mut id = 0;
+    for g in 0..n_groups {
+        let n = rng.range(1, max_per_group);
+        let mut used: Vec<u32> = vec![];
+        for _ in 0..n {
+            let mut b = match rng.below(6) {
+                0 => rng.below(3) as u32,
+                1 => rng.below(1000) as u32,
+                2 => 4294967295 - rng.below(3) as u32,
+                _ => rng.below(16) as u32,
+            };
+            while used.contains(&b) {
+                b = b.wrapping_add(1);
+            }
+            used.push(b);
+            // names that are prefixes of each other on purpose (x1 / x10 / x1_)
+            let name = match rng.below(4) {
+                0 => format!("x{id}"),
+                1 => format!("x{id}_"),
+                2 => format!("res_{id}"),
+                _ => format!("X{id}y"),
+            };
+            v.push(Slot { group: g, binding: b, name, decl_tail: *rng.pick(&RESOURCE_DECLS) });
+            id += 1;
+        }
+    }
+    rng.shuffle(&mut v);
+    v
 }
